@@ -72,6 +72,56 @@ def Frame.WF (f : Frame) : Prop :=
   f.natoms < 4294967296 ∧ f.step < 4294967296 ∧ f.time < 4294967296 ∧ f.lambda < 4294967296 ∧
   (∀ w ∈ f.box, w < 4294967296) ∧ (∀ w ∈ f.x, w < 4294967296) ∧ 12 * f.natoms < 4294967296
 
+
+/-! ### .xtc frames (mdtraj/formats/xtc/src/xdrfile_xtc.c `xtc_header`, `xtc_coord`; xdrfile.c `xdrfile_compress_coord_float`)
+
+  1995 natoms step time box(9 floats) natoms  then
+  * natoms ≤ 9: 3·natoms floats, uncompressed;
+  * otherwise: precision(float) minint(3) maxint(3) smallidx nbytes, then nbytes of packed integers padded to a multiple of four.
+The packed integers are not decoded here: the reader below follows the byte count and keeps the payload words. -/
+
+structure XtcFrame where
+  natoms : Nat
+  step : Nat
+  time : Nat
+  box : List Nat            -- 9 words
+  x : List Nat              -- 3·natoms words when natoms ≤ 9, else empty
+  packed : List Nat         -- for natoms > 9: precision, minint, maxint, smallidx, nbytes and the payload words
+  deriving DecidableEq, Repr
+
+def renderXtc (f : XtcFrame) : List Nat := [1995, f.natoms, f.step, f.time] ++ f.box ++ [f.natoms] ++ f.x ++ f.packed
+
+def parseXtcFrame : List Nat → Option (XtcFrame × List Nat)
+  | magic :: natoms :: step :: time :: rest =>
+    if magic = 1995 ∧ 10 ≤ rest.length ∧ (rest.drop 9).head? = some natoms then
+      let body := rest.drop 10
+      if natoms ≤ 9 then
+        if 3 * natoms ≤ body.length then some (⟨natoms, step, time, rest.take 9, body.take (3 * natoms), []⟩, body.drop (3 * natoms)) else none
+      else
+        match body.drop 8 with
+        | nbytes :: _ =>
+          let n := 9 + (nbytes + 3) / 4
+          if n ≤ body.length then some (⟨natoms, step, time, rest.take 9, [], body.take n⟩, body.drop n) else none
+        | [] => none
+    else none
+  | _ => none
+
+def parseXtcAll : Nat → List Nat → Option (List XtcFrame)
+  | _, [] => some []
+  | 0, _ => none
+  | fuel + 1, ws => match parseXtcFrame ws with
+    | some (f, rest) => (parseXtcAll fuel rest).map (f :: ·)
+    | none => none
+
+def readXtc (bytes : List Nat) : Option (List XtcFrame) := (toWords bytes).bind (fun ws => parseXtcAll (ws.length + 1) ws)
+
+def writeXtc (fs : List XtcFrame) : List Nat := bytesOfWords (fs.flatMap renderXtc)
+
+/-- a frame of at most nine atoms as mdtraj writes it (uncompressed) -/
+def XtcFrame.SmallWF (f : XtcFrame) : Prop :=
+  f.natoms ≤ 9 ∧ f.box.length = 9 ∧ f.x.length = 3 * f.natoms ∧ f.packed = [] ∧
+  f.step < 4294967296 ∧ f.time < 4294967296 ∧ (∀ w ∈ f.box, w < 4294967296) ∧ (∀ w ∈ f.x, w < 4294967296)
+
 /-- the value of an IEEE-754 single precision word, exactly (`none`: infinity or NaN) -/
 def f32ToRat (w : Nat) : Option Rat :=
   let sign : Int := if w / 2147483648 % 2 = 1 then -1 else 1
